@@ -632,6 +632,16 @@ pub fn plan(property: &str, tier: Tier) -> Option<Plan>
                 c.sym_actors = vec![];
                 items.push(item(c, "respawn", &format!("N={n}")));
             }
+            // a system's own entity changes archetype (an unrelated component is inserted on it) while the system is
+            // executing, by itself or by a nested system; recursion makes later runs postponed ones
+            let ns: &[u32] = if q { &[4] } else { &[4, 5] };
+            for &n in ns
+            {
+                let mut c = core_cfg(format!("C13/tag-sys/N{n}"), p3.clone(), &[1], n, 1, false);
+                let inner = c.script.clone();
+                c.script = Arc::new(move |i: &DynInfo| { let mut v = inner(i); for a in all_actors(i) { v.push(Op::TagSys(a)); } v });
+                items.push(item(c, "tag-sys", &format!("N={n}")));
+            }
             // one very large tree (a fixed script of 4200 runs queued by one body), then runs from the top level: a
             // system's state must survive however many commands the tree before ran (the only place besides C10's bursts
             // where a size other than 0..3 is part of a universe; thresholds on the tree position are a realistic way
@@ -1830,6 +1840,10 @@ pub fn plan(property: &str, tier: Tier) -> Option<Plan>
                     Op::Register(2, Bundle::three(Trig::Insertion(Comp::A), Trig::Mutation(Comp::A), Trig::ResMut), Mode::Persistent),
                     Op::Register(1, Bundle::three(Trig::Insertion(Comp::A), Trig::Mutation(Comp::A), Trig::ResMut), Mode::Persistent),
                     Op::Register(1, Bundle::two(Trig::EntityMutation(Comp::A, 0), Trig::EntityInsertion(Comp::A, 1)), Mode::Persistent),
+                    // both probes listen entity-scoped on entity 0 to both kinds: the entity's own list interleaves the
+                    // kinds (mutation, insertion, mutation, insertion, mutation)
+                    Op::Register(2, Bundle::two(Trig::EntityInsertion(Comp::A, 0), Trig::EntityMutation(Comp::A, 0)), Mode::Persistent),
+                    Op::Register(1, Bundle::two(Trig::EntityInsertion(Comp::A, 0), Trig::EntityMutation(Comp::A, 0)), Mode::Persistent),
                 ];
                 c.fixed_top = vec![Op::Run(0)];
                 let alpha: AlphabetFn = Arc::new(|i: &DynInfo| {
